@@ -24,6 +24,24 @@ def model(run):
     return plans
 
 
+def builder_model(run, tier):
+    cfg = run.path("MC_Builder.cfg")
+    open(cfg, "w").write("SPECIFICATION Spec\nCONSTANTS\n  NSrc = 3\n  MaxCalls = %d\nINVARIANTS TypeOK SourcesAccumulate StateMeansWhatItSays "
+                         "CompileHasEverything FoldAgrees Emit\nCHECK_DEADLOCK FALSE\n" % (4 if tier == "quick" else 5))
+    res = core.tlc("mc/MC_Builder.tla", cfg, workers=1, coverage=True, timeout=900, xmx="4g")
+    core.check_coverage(res)
+    run.add_tlc(res, "Builder.tla: the typestate builder over every sequence of add_* / set_output calls for 3 sources")
+    seen, cases = set(), []
+    for c in res.printed("CASE"):
+        k = json.dumps(c, sort_keys=True)
+        if k not in seen:
+            seen.add(k)
+            cases.append(c)
+    if len(cases) < 500:
+        raise ToolError(f"builder model emitted only {len(cases)} call sequences")
+    return cases
+
+
 PROBE = core.PROBE
 
 
@@ -58,7 +76,7 @@ def macro_part(run, paths, n):
             os.remove(os.path.join(bins, f))
 
 
-def drive_and_validate(run, plans, sets, per_plan, shards, n_macro):
+def drive_and_validate(run, plans, sets, per_plan, shards, n_macro, builder_cases=()):
     cli = core.cargo_build_cli()
     paths = {k: run.path(k + ".ndjson") for k in ("plans", "sets", "trace")}
     core.write_ndjson(paths["plans"], plans)
@@ -71,6 +89,13 @@ def drive_and_validate(run, plans, sets, per_plan, shards, n_macro):
     shutil.rmtree(scratch, ignore_errors=True)
     macro_part(run, paths, n_macro)
     events = core.read_ndjson(paths["trace"])
+    if builder_cases:
+        bc, bt = run.path("builder_cases.ndjson"), run.path("builder_trace.ndjson")
+        core.write_ndjson(bc, list(builder_cases))
+        core.vharness(["c20builder", "--cases", bc, "--dir", scratch, "--trace", bt], threads=12)
+        shutil.rmtree(scratch, ignore_errors=True)
+        events += core.read_ndjson(bt)
+        core.write_ndjson(paths["trace"], events)
     consumed, verdicts = core.validate_trace("trace/Trace_C20.tla", trace_cfg(run), paths["trace"], shards=shards, timeout=3000)
     run.judge(events, verdicts, consumed)
     return events
@@ -82,12 +107,22 @@ def check(tier):
     plans = model(run)
     sets = c02.generate(run, tier, **t["sim"])
     run.case_of = lambda ev: {k: ev.get(k) for k in ("api", "backend", "srcform", "mode", "dest", "input", "asn")}
-    events = drive_and_validate(run, plans, sets, t["per_plan"], shards=2 if tier == "quick" else 8, n_macro=t["n_macro"])
+    bcases = builder_model(run, tier)
+    run.case_of = lambda ev: ({k: ev.get(k) for k in ("backend", "calls", "final", "out", "forms", "state")} if ev.get("ev") == "builder"
+                              else {k: ev.get(k) for k in ("api", "backend", "srcform", "mode", "dest", "input", "asn")})
+    events = drive_and_validate(run, plans, sets, t["per_plan"], shards=2 if tier == "quick" else 8, n_macro=t["n_macro"], builder_cases=bcases)
+    builders = [e for e in events if e["ev"] == "builder"]
+    run.cov["builder_call_sequences"] = len(bcases)
+    run.cov["builder_events"] = len(builders)
+    run.cov["builder_by_final_state"] = {}
+    for e in builders:
+        k = e["state"] + "/" + e["final"]
+        run.cov["builder_by_final_state"][k] = run.cov["builder_by_final_state"].get(k, 0) + 1
     macros = [e for e in events if e["ev"] == "macro"]
     events = [e for e in events if e["ev"] == "deliver"]
     run.cov["macro_expansions_compared"] = len([e for e in macros if e["expands"]])
     run.cov["macro_failures_expected_and_seen"] = len([e for e in macros if not e["expands"] and e["lib_status"] != "ok"])
-    run.cov["evaluations"] = len(events) + len(macros)
+    run.cov["evaluations"] = len(events) + len(macros) + len(builders)
     run.cov["plans"] = len(plans)
     run.cov["module_sets"] = len(sets)
     for k in ("api", "backend", "srcform", "mode", "dest", "input", "result", "target_after", "stdout"):
